@@ -39,7 +39,11 @@ Next ==
          ObsRow(i) == IF e.rows[i].kind = "row" THEN <<"row", e.rows[i].op, e.rows[i].args, e.rows[i].value>>
                       ELSE IF e.rows[i].kind = "final" THEN <<"final", e.rows[i].value>> ELSE <<"failure">>
          ObsSeq == LET idx == SetToSortSeq(Reported) IN [k \in 1..Len(idx) |-> ObsRow(idx[k])]
-         explained == Trace(e.prog, e.env) = ObsSeq
+         \* "yes" / "no" when the model runs the program to its end; "unknown" when it stops at its step limit or at an
+         \* operation outside the modelled arithmetic (large compiled programs)
+         explained == LET mt == Trace(e.prog, e.env) IN
+                      IF mt = <<>> \/ mt[Len(mt)][1] \notin {"final", "failure"} THEN "unknown"
+                      ELSE IF mt = ObsSeq THEN "yes" ELSE "no"
      IN /\ bad' = IF numbering /\ BadRows = {} /\ terminal /\ e.same_hex THEN bad
                   ELSE bad \cup {<<l, [numbering |-> numbering, false_rows |-> BadRows, terminal |-> terminal, same_hex |-> e.same_hex,
                                        model_explains |-> explained]>>}
